@@ -1,4 +1,4 @@
 SPECIFICATION TSpec
 CONSTANTS
-  CodeDefects = {"MapOrderDispatch", "ProtoOverrideDropped", "TypeNameCollision"}
+  CodeDefects = {"MapOrderDispatch", "ProtoOverrideDropped", "TypeNameCollision", "EnvelopeCodecAmbiguity"}
 CHECK_DEADLOCK FALSE
